@@ -252,6 +252,13 @@ def classify_use(repo: Repo, sf: SetFlow, f: Func, e: ast.AST, depth: int = 0) -
 
 def _classify_call_arg(repo: Repo, sf: SetFlow, f: Func, e: ast.AST, call: ast.Call, kw: Optional[str], depth: int) -> Tuple[str, str]:
     nm = call_name(call)
+    if isinstance(call.func, ast.Name) and nm == 'sorted':
+        # sorted() is stable: elements the key does not tell apart keep the order of the input - the hash order of the set.  The key has to be one-to-one
+        kf = next((k.value for k in call.keywords if k.arg == 'key'), None)
+        if kf is not None and not _injective_key(kf):
+            return 'bad', (f'sorted(..., key={norm(kf)[:50]}): the key is not one-to-one, elements it does not tell apart (names that differ in case, kinds mapped to the '
+                           'same value) keep the hash order of the set, which changes with PYTHONHASHSEED')
+        return 'ok', 'sorted(...)' + ('' if kf is None else f' with the one-to-one key {norm(kf)[:40]}')
     if isinstance(call.func, ast.Name) and nm in INSENSITIVE_CALLS:
         return 'ok', f'{nm}(...)'
     if isinstance(call.func, ast.Attribute) and nm in SET_SAFE_METHODS and sf.is_set(call.func.value, f):
@@ -302,6 +309,8 @@ def _injective_key(kf: ast.expr) -> bool:
         if isinstance(e, ast.Name) and e.id == prm:
             return True
         if isinstance(e, ast.Attribute) and isinstance(e.value, ast.Name) and e.value.id == prm and e.attr in ('name', 'path'):
+            return True
+        if isinstance(e, ast.Call) and isinstance(e.func, ast.Attribute) and isinstance(e.func.value, ast.Name) and e.func.value.id == prm and e.func.attr == 'fullName' and not e.args:
             return True
         if isinstance(e, ast.Call) and norm(e.func) in ('str', 'os.fspath', 'os.fsdecode') and len(e.args) == 1:
             return one_to_one(e.args[0])
